@@ -140,6 +140,30 @@ CHECKS = {
             "'weakly meshed' read as <= 1 loop per island; nr flat start not compared behind 150 degree transformers with angles "
             "(documented low-voltage solution); LoadflowNotConverged outside BfswMustSolve counted, not flagged",
             "TLC-enumerated network classes x solver configurations run on the implementation; agreement decided by TLC", "§5 C06"),
+    "C01": ("exploration",
+            'BalanceDef.tla fixes the template (6 buses, 9 branches incl. trafo3w, impedance, impedance switch, dcline, 17 bus elements) and the contribution map: which element / branch terminal contributes at which fused bus class with which sign. BalanceNet.tla lets TLC choose the structure of every case: corner configurations plus a seeded RandomSubset of the full product (21 element switches x ZIP fractions, voltage_depend_loads, AC/DC, trafo_model, enforce_q_lims, tight limits, distributed_slack, weights, scaling, shunt rating), checked for well-formedness. Each state is solved by the real runpp/rundcpp and TLC evaluates on the logged result tables: '
+            "Kirchhoff balance of P and Q at every fused class and res_bus = net consumption at every bus.",
+            "one template; level tables in harness/balance.py; tolerance 1 micro-unit per summed term + 3",
+            "TLC-chosen configurations solved by the implementation; nodal balance decided by TLC on fixed-point observations", "§5 C01"),
+    "C03": ("exploration",
+            'BalanceDef.tla fixes the template (6 buses, 9 branches incl. trafo3w, impedance, impedance switch, dcline, 17 bus elements) and the contribution map: which element / branch terminal contributes at which fused bus class with which sign. BalanceNet.tla lets TLC choose the structure of every case: corner configurations plus a seeded RandomSubset of the full product (21 element switches x ZIP fractions, voltage_depend_loads, AC/DC, trafo_model, enforce_q_lims, tight limits, distributed_slack, weights, scaling, shunt rating), checked for well-formedness. Each state is solved by the real runpp/rundcpp and TLC evaluates on the logged result tables: '
+            "total consumption - generation + branch losses = 0, pl = sum of terminal powers, non-negative losses of the passive branches, "
+            "lossless branches and balance in DC.",
+            "as C01; all branches of the template are passive (reciprocal impedance)",
+            "TLC-chosen configurations solved by the implementation; conservation relations decided by TLC", "§5 C03"),
+    "C04": ("exploration",
+            'BalanceDef.tla fixes the template (6 buses, 9 branches incl. trafo3w, impedance, impedance switch, dcline, 17 bus elements) and the contribution map: which element / branch terminal contributes at which fused bus class with which sign. BalanceNet.tla lets TLC choose the structure of every case: corner configurations plus a seeded RandomSubset of the full product (21 element switches x ZIP fractions, voltage_depend_loads, AC/DC, trafo_model, enforce_q_lims, tight limits, distributed_slack, weights, scaling, shunt rating), checked for well-formedness. Each state is solved by the real runpp/rundcpp and TLC evaluates on the logged result tables: '
+            "ext_grid magnitude/angle, gen bus at its setpoint or gens exactly at the binding enforced limit with the voltage deviating in the "
+            "explained direction, q within limits under enforcement, p*scaling / q*scaling of gens, sgens, storages and constant-power loads, "
+            "the ZIP law and the shunt law as exact products in multi-limb integer arithmetic (Wide.tla).",
+            "as C01; response laws to 40 ppm; reactive limits to 30 micro-Mvar; several gens on a bus compared by their sum",
+            "TLC-chosen configurations solved by the implementation; setpoint / response-law relations decided by TLC (Wide arithmetic)", "§5 C04"),
+    "C10": ("exploration",
+            'BalanceDef.tla fixes the template (6 buses, 9 branches incl. trafo3w, impedance, impedance switch, dcline, 17 bus elements) and the contribution map: which element / branch terminal contributes at which fused bus class with which sign. BalanceNet.tla lets TLC choose the structure of every case: corner configurations plus a seeded RandomSubset of the full product (21 element switches x ZIP fractions, voltage_depend_loads, AC/DC, trafo_model, enforce_q_lims, tight limits, distributed_slack, weights, scaling, shunt rating), checked for well-formedness. Each state is solved by the real runpp/rundcpp and TLC evaluates on the logged result tables: '
+            "deviation/weight equal for all participating ext_grids and gens (cross-multiplied), non-participants keep their setpoints, nodal "
+            "balance holds at every class (this clause covers the xward, whose internal share is not a result column).",
+            "as C01; configurations with distributed_slack only; xward proportionality not observable from the result tables",
+            "TLC-chosen configurations solved by the implementation; proportional sharing decided by TLC", "§5 C10"),
 }
 
 NOT_APPLICABLE = {
